@@ -129,6 +129,14 @@ theorem aliases_forward : ∀ r ∈ Expected.ImplTable.identities, r.2.1 ≠ sSe
     (r.2.2 = sFwdId ∨ (r.2.2 = sFwdT ∧ r.2.1 = sTId) ∨ r.1 = iPhantom) := by
   decide
 
+/-- … and the model forwards where the source does: a row that forwards to `Self::Identity` has the definition of its declared
+    identity, a row that forwards to `T` the definition of its argument -/
+theorem model_forwards (d : Bool) (t : TyExpr) :
+    typeInfo d (.vec t) = typeInfo d (.slice t) ∧ typeInfo d (.vecDeque t) = typeInfo d (.slice t) ∧ typeInfo d .string = typeInfo d .str ∧
+    typeInfo d (.box_ t) = typeInfo d t ∧ typeInfo d (.rc t) = typeInfo d t ∧ typeInfo d (.arc t) = typeInfo d t ∧
+    typeInfo d (.ref_ t) = typeInfo d t ∧ typeInfo d (.refMut t) = typeInfo d t := by
+  simp [typeInfo]
+
 /-- and no impl that declares `Identity = Self` forwards -/
 theorem selves_do_not_forward : ∀ r ∈ Expected.ImplTable.identities, r.2.1 = sSelf → r.2.2 = sNone_ := by
   decide
